@@ -113,6 +113,24 @@ func genConv(r *gen.R, validOnly bool) (mon.OpReq, Expect, convInfo, bool) {
 	if info.biasMode == 2 {
 		b = primeTensor(r, dt, []int{M})
 	}
+	if !validOnly && r.Chance(0.08) {
+		// IEEE special values: weight x (padded) input is summed as it is, 0 x Inf and 0 x NaN are NaN
+		sp := func() uint64 { return ref.EncF(dt, r.PickFloat(math.Inf(1), math.Inf(-1), math.NaN())) }
+		if r.Bool() {
+			x.Bits[r.Intn(len(x.Bits))] = sp()
+		} else {
+			w.Bits[r.Intn(len(w.Bits))] = sp()
+		}
+		if r.Bool() { // one filter with all weights zero
+			m, per := r.Intn(M), len(w.Bits)/M
+			for i := m * per; i < (m+1)*per; i++ {
+				w.Bits[i] = 0
+			}
+			if r.Bool() && len(x.Bits) > 0 {
+				x.Bits[r.Intn(len(x.Bits))] = sp()
+			}
+		}
+	}
 	why := ""
 	if !validOnly && r.Chance(0.12) {
 		switch r.Intn(6) {
@@ -270,9 +288,36 @@ func c05Known(info convInfo) KnownMatcher {
 					return "Conv:single-channel-kernel-broadcast-over-input-channels"
 				}
 			}
+			if hw, hat, ok := zeroFilledKernel(rep, at); ok && hasNonFinite(info.x) { // plus the dilation-holes defect
+				if alt, err := ref.Conv(info.x, hw, info.b, hat); err == nil {
+					if k, _ := CompareValue(o.Vals[0], alt, CmpTol); k == "" {
+						return "Conv:single-channel-kernel-broadcast-over-input-channels"
+					}
+				}
+			}
 			return ""
 		}
+		// recorded defect "the positions between the taps of a dilated kernel are multiplied
+		// with the input" (the library materialises the dilated kernel with zeros inserted):
+		// a non-finite input element under such a position turns the sum into NaN. The
+		// observed tensor must equal the reference evaluated with that zero-filled kernel.
+		holes := func(at ref.ConvAttrs) *ref.Approx {
+			hw, hat, ok := zeroFilledKernel(info.w, at)
+			if !ok {
+				return nil
+			}
+			alt, err := ref.Conv(info.x, hw, info.b, hat)
+			if err != nil {
+				return nil
+			}
+			return alt
+		}
 		if info.at.AutoPad != "VALID" {
+			if alt := holes(info.at); alt != nil && hasNonFinite(info.x) {
+				if k, _ := CompareValue(o.Vals[0], alt, CmpTol); k == "" {
+					return "Conv:dilated-kernel-holes-multiply-non-finite-input"
+				}
+			}
 			return ""
 		}
 		at := info.at
@@ -284,6 +329,61 @@ func c05Known(info convInfo) KnownMatcher {
 		if k, _ := CompareValue(o.Vals[0], alt, CmpTol); k == "" {
 			return "Conv:auto_pad-VALID-computed-as-SAME_UPPER"
 		}
+		if alt := holes(at); alt != nil && hasNonFinite(info.x) { // both recorded defects at once
+			if k, _ := CompareValue(o.Vals[0], alt, CmpTol); k == "" {
+				return "Conv:auto_pad-VALID-computed-as-SAME_UPPER"
+			}
+		}
 		return ""
 	}
+}
+
+func hasNonFinite(t *ref.T) bool {
+	for i := range t.Bits {
+		if v := t.F(i); v != v || math.IsInf(v, 0) {
+			return true
+		}
+	}
+	return false
+}
+
+// zeroFilledKernel materialises the dilated kernel: zeros between the taps,
+// dilations 1. ok=false when no axis is dilated.
+func zeroFilledKernel(w *ref.T, at ref.ConvAttrs) (*ref.T, ref.ConvAttrs, bool) {
+	n := w.Rank() - 2
+	if n < 1 || len(at.Dilations) != n {
+		return nil, at, false
+	}
+	dilated := false
+	ks := make([]int, n)
+	for d := 0; d < n; d++ {
+		if at.Dilations[d] > 1 && w.Shape[2+d] > 1 {
+			dilated = true
+		}
+		if at.Dilations[d] < 1 {
+			return nil, at, false
+		}
+		ks[d] = (w.Shape[2+d]-1)*at.Dilations[d] + 1
+	}
+	if !dilated {
+		return nil, at, false
+	}
+	hw := ref.New(w.DT, append([]int{w.Shape[0], w.Shape[1]}, ks...)...)
+	per, hper := ref.NumElems(w.Shape[2:]), ref.NumElems(ks)
+	kc, hc := make([]int, n), make([]int, n)
+	for mc := 0; mc < w.Shape[0]*w.Shape[1]; mc++ {
+		for k := 0; k < per; k++ {
+			ref.Unravel(k, w.Shape[2:], kc)
+			for d := range kc {
+				hc[d] = kc[d] * at.Dilations[d]
+			}
+			hw.Bits[mc*hper+ref.Ravel(hc, ks)] = w.Bits[mc*per+k]
+		}
+	}
+	hat := at
+	hat.Dilations = nil
+	if at.KernelShape != nil {
+		hat.KernelShape = ks
+	}
+	return hw, hat, true
 }
